@@ -307,8 +307,20 @@ impl SchemaCatalog {
         let content = serde_json::to_string_pretty(self)
             .map_err(|e| SchemaError::IoError(format!("Failed to serialize schemas: {e}")))?;
 
-        fs::write(path, content)
+        // Atomic replace: write temp, sync, rename, sync directory
+        let tmp_path = path.with_extension("json.tmp");
+        fs::write(&tmp_path, content)
             .map_err(|e| SchemaError::IoError(format!("Failed to write schema catalog: {e}")))?;
+        fs::File::open(&tmp_path)
+            .and_then(|f| f.sync_all())
+            .map_err(|e| SchemaError::IoError(format!("Failed to sync schema catalog: {e}")))?;
+        fs::rename(&tmp_path, path)
+            .map_err(|e| SchemaError::IoError(format!("Failed to replace schema catalog: {e}")))?;
+        if let Some(parent) = path.parent() {
+            if let Ok(d) = fs::File::open(parent) {
+                let _ = d.sync_all();
+            }
+        }
 
         Ok(())
     }
